@@ -195,6 +195,27 @@ func (v *Verifier) buildQuery(o *Obligation, depth int) *Query {
 	}
 	unf := v.unfoldInstances(roots, depth)
 	q := &Query{Name: o.Name, Assume: append(append([]*Term{}, o.Assume...), unf...), Goal: o.Goal}
+	// tagged axioms: added when their trigger symbol occurs in the query
+	used := map[string]bool{}
+	for _, a := range collectApps(append(append([]*Term{}, q.Assume...), nonNil(o.Goal)...), func(t *Term) bool { return true }) {
+		used[a.Name] = true
+	}
+	for i, ax := range v.taggedAxioms {
+		if !used[ax.Label] {
+			continue
+		}
+		t, ok := v.taggedTerms[i]
+		if !ok {
+			env := &Env{v: v, vars: map[string]SV{}, st: newState()}
+			tt, err := env.EvalBool(ax.E)
+			if err != nil {
+				panic(specError{fmt.Sprintf("axiom %s: %v", ax.Label, err)})
+			}
+			t = tt
+			v.taggedTerms[i] = t
+		}
+		q.Assume = append(q.Assume, t)
+	}
 	if o.Src != "" {
 		q.Comment = "goal: " + o.Src
 	}
